@@ -5,7 +5,7 @@ import os
 
 from .model import Repo
 
-KINDS = ['reflow', 'noop', 'flip', 'rename', 'invert', 'namedcond', 'tempret', 'augexpand', 'alias']
+KINDS = ['reflow', 'noop', 'flip', 'rename', 'invert', 'namedcond', 'tempret', 'augexpand', 'alias', 'swapindep']
 
 
 def bound_names(fn):
@@ -237,6 +237,29 @@ def alias_tree(tree):
     return tree
 
 
+def swapindep_tree(tree):
+    '''two adjacent simple assignments to different plain locals whose right-hand sides are side-effect free (names, constants,
+    attribute reads, arithmetic) and that do not mention each other's target are swapped'''
+    def pure(e):
+        return all(isinstance(x, (ast.Name, ast.Constant, ast.Attribute, ast.BinOp, ast.UnaryOp, ast.operator, ast.unaryop, ast.expr_context,
+                                  ast.Compare, ast.cmpop, ast.BoolOp, ast.boolop, ast.Tuple)) for x in ast.walk(e))
+
+    def names(e):
+        return {x.id for x in ast.walk(e) if isinstance(x, ast.Name)}
+    for parent, fld, body in list(_bodies(tree)):
+        k = 0
+        while k + 1 < len(body):
+            a, b = body[k], body[k + 1]
+            # plain locals only: the order of two attribute stores can matter to a concurrent reader (ok flag vs state)
+            if all(isinstance(x, ast.Assign) and len(x.targets) == 1 and isinstance(x.targets[0], ast.Name) and pure(x.value) for x in (a, b)) \
+                    and a.targets[0].id != b.targets[0].id and a.targets[0].id not in names(b.value) and b.targets[0].id not in names(a.value):
+                body[k], body[k + 1] = b, a
+                k += 2
+            else:
+                k += 1
+    return tree
+
+
 def make_overlay(kind, root='/repo'):
     repo = Repo(root)
     out = {}
@@ -248,6 +271,8 @@ def make_overlay(kind, root='/repo'):
             tree = noop_tree(tree)
         elif kind == 'flip':
             tree = Flip().visit(tree)
+        elif kind == 'swapindep':
+            tree = swapindep_tree(tree)
         elif kind == 'augexpand':
             tree = augexpand_tree(tree)
         elif kind == 'alias':
